@@ -13,8 +13,9 @@ def cand_set(f, line):
     try:
         with core.watchdog(5):
             c = f(line)
-    except ValueError:
-        return 'ValueError'
+    except ValueError as ex:
+        # the mnemonic-table miss is its own outcome (named by the spelling that is missing), not a parse error
+        return 'unknown-mnemonic' if "Mnemonic '" in str(ex) and 'unknown' in str(ex) else 'ValueError'
     except core.Timeout:
         return 'timeout'
     except Exception as ex:
@@ -76,8 +77,12 @@ def shard(s, ns, tier, seed):
         good = [(a, g) for a, g in zip(accepted, gas) if g]
         att = R.objdump_batch([g for a, g in good], syntax='att')
         gint = R.objdump_batch([g for a, g in good])
+        atts = R.objdump_batch([g for a, g in good], syntax='att-suffix')
+        triples = [(ag, od, oi, 'intel<->att') for ag, od, oi in zip(good, att, gint)]
+        # binutils' second transliteration: mnemonic suffix always written (objdump -M att,suffix)
+        triples += [(ag, od, oi, 'intel<->att-suffix') for ag, od, od0, oi in zip(good, atts, att, gint) if od is not None and od0 is not None and od[1] != od0[1]]
         with core.quiet_stdout():
-            for (a, g), od, oi in zip(good, att, gint):
+            for (a, g), od, oi, tkind in triples:
                 spec, line, base = a
                 if od is None or od[1] is None or od[0] != len(g) or '(bad)' in od[1] or '<' in od[1]:
                     part.skip('no AT&T transliteration')
@@ -95,16 +100,105 @@ def shard(s, ns, tier, seed):
                 got = cand_set(asm_att, od[1])
                 part.n += 1
                 if got == base:
+                    for akind, l3 in att_rewrites(od[1]):
+                        g3 = cand_set(asm_att, l3)
+                        part.n += 1
+                        if g3 == base:
+                            part.keys.add(core.h64((od[1], l3)))
+                            part.outcomes.add(core.h64(akind))
+                        else:
+                            how = g3 if isinstance(g3, str) else ('rejected' if not g3 else 'differs')
+                            part.violation('rewrite=%s mnemo=%s ops=%s how=%s' % (akind, R.canon_mnemo(spec[0]), G.kinds(spec), how),
+                                           'asm_att(%r) = %s but asm_att(%r) = %s' % (od[1], describe(base), l3, describe(g3)),
+                                           {'l1': od[1], 'l2': l3, 'e1': 'asm_att', 'e2': 'asm_att'}, size=len(line))
+                if got == base:
                     part.keys.add(core.h64((line, od[1])))
-                    part.outcomes.add(core.h64('att'))
-                    if len(part.samples) < 5 and 'intel<->att' not in [x.get('rewrite') for x in part.samples]:
-                        part.samples.append({'rewrite': 'intel<->att', 'l1': line, 'l2': od[1], 'candidates': len(base)})
+                    part.outcomes.add(core.h64(tkind))
+                    if len(part.samples) < 5 and tkind not in [x.get('rewrite') for x in part.samples]:
+                        part.samples.append({'rewrite': tkind, 'l1': line, 'l2': od[1], 'candidates': len(base)})
                 else:
                     how = got if isinstance(got, str) else ('rejected' if not got else ('subset' if got < base else 'superset' if got > base else 'differs'))
-                    part.violation('rewrite=intel<->att mnemo=%s ops=%s how=%s' % (R.canon_mnemo(spec[0]), G.kinds(spec), how),
+                    sig = 'rewrite=%s mnemo=%s ops=%s how=%s' % (tkind, R.canon_mnemo(spec[0]), G.kinds(spec), how)
+                    if how in ('unknown-mnemonic', 'raises:KeyError'):      # a mnemonic-table miss: named by the spelling, not by the operands
+                        sig = 'rewrite=%s att-mnemo=%s how=%s' % (tkind, ' '.join(w for w in od[1].split() if not w.startswith(('%', '$', '(', '*', '-', '0')) and ',' not in w), how)
+                    part.violation(sig,
                                    'asm(%r) = %s but asm_att(%r) = %s' % (line, describe(base), od[1], describe(got)),
                                    {'l1': line, 'l2': od[1], 'e1': 'asm', 'e2': 'asm_att'}, size=len(line))
+    if s == 0:
+        with core.quiet_stdout():
+            bracket_forms(part, asm)
     return part
+
+
+def att_rewrites(text):
+    """presentation-only rewrites of an AT&T line as printed by objdump"""
+    import re
+    out = []
+    m = re.match(r'^(\S+)(\s+)(.*)$', text)
+    if not m:
+        return out
+    mn, gap, ops = m.groups()
+    # split at top-level commas
+    parts, depth, cur = [], 0, ''
+    for ch in ops:
+        if ch == '(':
+            depth += 1
+        elif ch == ')':
+            depth -= 1
+        if ch == ',' and depth == 0:
+            parts.append(cur)
+            cur = ''
+        else:
+            cur += ch
+    parts.append(cur)
+    if len(parts) >= 2:
+        out.append(('att-spacing', mn + ' ' + ', '.join(p.strip() for p in parts)))
+        out.append(('att-spacing', mn + '\t' + ' ,  '.join(p.strip() for p in parts)))
+    dec = re.sub(r'(?<![\w%])(-?)0x([0-9a-f]+)', lambda k: k.group(1) + str(int(k.group(2), 16)), text)
+    if dec != text:
+        out.append(('att-number-base', dec))
+    base = mn.rstrip('bwl') if mn not in ('xchg', 'test') else mn
+    if base in ('xchg', 'test') and len(parts) == 2 and ('(' in ops or ':' in ops) and '$' not in ops:
+        # both operand orders of xchg/test denote the same instruction (and GNU as encodes them identically)
+        out.append(('att-operand-order', mn + gap + parts[1].strip() + ',' + parts[0].strip()))
+    return out
+
+
+BRACKET_ADDR = ['ebx', 'ebx+esi*2', 'eax*4', 'esp', 'ebp+edi']
+
+
+def bracket_forms(part, asm):
+    """the six bracket productions: [e]  N[e]  -N[e]  sym[e]  N+sym[e]  -N+sym[e], against the all-inside spelling"""
+    for mn, dst, kw in (('mov', 'eax', 'DWORD PTR '), ('lea', 'eax', ''), ('mov', 'cl', 'BYTE PTR '), ('add', 'dx', 'WORD PTR ')):
+        for ad in BRACKET_ADDR:
+            for n in (4, 8, 127, 128, 0x1234):
+                groups = [
+                    ('number', '[%s+%d]' % (ad, n), ['%d[%s]' % (n, ad), '[%d+%s]' % (n, ad), '0x%x[%s]' % (n, ad)]),
+                    ('minus-number', '[%s-%d]' % (ad, n), ['-%d[%s]' % (n, ad), '-0x%x[%s]' % (n, ad)]),
+                    ('symbol', '[%s+foo]' % ad, ['foo[%s]' % ad, '[foo+%s]' % ad]),
+                    ('number+symbol', '[%s+foo+%d]' % (ad, n), ['%d+foo[%s]' % (n, ad), 'foo[%s+%d]' % (ad, n), '[foo+%s+%d]' % (ad, n), '[%d+foo+%s]' % (n, ad)]),
+                    ('minus-number+symbol', '[%s+foo-%d]' % (ad, n), ['-%d+foo[%s]' % (n, ad), 'foo[%s-%d]' % (ad, n), '[foo+%s-%d]' % (ad, n)]),
+                ]
+                for kind, inside, variants in groups:
+                    if kind == 'symbol' and n != 4:
+                        continue
+                    l1 = '%s %s, %s%s' % (mn, dst, kw, inside)
+                    base = cand_set(asm, l1)
+                    if isinstance(base, str) or not base:
+                        part.skip('not accepted by asm')
+                        continue
+                    for v in variants:
+                        l2 = '%s %s, %s%s' % (mn, dst, kw, v)
+                        got = cand_set(asm, l2)
+                        part.n += 1
+                        if got == base:
+                            part.keys.add(core.h64((l1, l2)))
+                            part.outcomes.add(core.h64('bracket-' + kind))
+                        else:
+                            how = got if isinstance(got, str) else ('rejected' if not got else 'differs')
+                            part.violation('rewrite=bracket-form:%s mnemo=%s how=%s' % (kind, mn, how),
+                                           'asm(%r) = %s but asm(%r) = %s' % (l1, describe(base), l2, describe(got)),
+                                           {'l1': l1, 'l2': l2, 'e1': 'asm', 'e2': 'asm'}, size=len(l1))
 
 
 def run(tier, seed):
